@@ -4,6 +4,7 @@ import Driver.WireStream
 import Driver.SchedStream
 import Driver.ProcStream
 import Driver.RegStream
+import Driver.EngineStream
 /-
 hwdriver: reads
     stream <name>
@@ -26,6 +27,7 @@ def dispatch (stream : String) : Option (String → String → CaseOut) :=
   | "sched" => some schedCase
   | "proc" => some procCase
   | "reg" => some regSeqCase
+  | "engine" => some engineCase
   | "regsched" => some regSchedCase
   | _ => none
 
